@@ -125,7 +125,7 @@ fn cont_scenario(case: usize, rng: &mut Rng) -> Vec<(String, String)> {
     forms.push(("(define g 0)".into(), void()));
     forms.push(("(define kv (vector #f #f))".into(), void()));
     forms.push(("(define kp (cons #f #f))".into(), void()));
-    match case % 12 {
+    match case % 13 {
         0 => {
             // escape from depth d, value delivered to a pending (+ c _)
             forms.push((format!("(+ {} (call/cc (lambda (k) (* 2 (deepcall {} (lambda () (k {})))))))", c, d, v), format!("ok {}", c + v)));
@@ -221,6 +221,20 @@ fn cont_scenario(case: usize, rng: &mut Rng) -> Vec<(String, String)> {
             forms.push(("n".into(), "ok 3".into()));
             forms.push(("(begin (kk 7) 'never)".into(), void()));
             forms.push(("r".into(), format!("ok {}", c + 7)));
+        }
+        12 => {
+            // R7RS 6.10: a continuation captured in a `map` callback, re-entered after map has returned, must not
+            // disturb the list the first return handed out (map may not build its result by mutation in place)
+            forms.push((format!("(define r (map (lambda (x) (call/cc (lambda (k) (if (= x 2) (set! kk k)) (+ x {})))) '(1 2 3)))", c), void()));
+            forms.push(("(define first r)".into(), void()));
+            forms.push(("r".into(), format!("ok ({} {} {})", 1 + c, 2 + c, 3 + c)));
+            forms.push((format!("(if (< g 2) (begin (set! g (+ g 1)) (kk {})) 'done)", v), void()));
+            forms.push(("r".into(), format!("ok ({} {} {})", 1 + c, v, 3 + c)));
+            forms.push(("first".into(), format!("ok ({} {} {})", 1 + c, 2 + c, 3 + c)));
+            forms.push((format!("(if (< g 2) (begin (set! g (+ g 1)) (kk {})) 'done)", w), void()));
+            forms.push(("r".into(), format!("ok ({} {} {})", 1 + c, w, 3 + c)));
+            forms.push(("first".into(), format!("ok ({} {} {})", 1 + c, 2 + c, 3 + c)));
+            forms.push(("(for-each (lambda (x) x) first)".into(), void()));
         }
         _ => {
             // continuation applied through apply; call/cc itself applied through apply
@@ -794,7 +808,7 @@ fn main() {
                 let (mut vm, _log) = new_vm();
                 for (f, exp) in cont_scenario(case, &mut rng) {
                     let r = eval_obs(&mut vm, &f);
-                    writeln!(out, "#oracle callcc case{} {}\t{}\t{}", case % 12, oneline(&f), oneline(&r), oneline(&exp)).unwrap();
+                    writeln!(out, "#oracle callcc case{} {}\t{}\t{}", case % 13, oneline(&f), oneline(&r), oneline(&exp)).unwrap();
                     if r == "panic" {
                         break; // the VM is not usable after a panic
                     }
